@@ -1,6 +1,7 @@
 package c04
 
 import (
+	"strings"
 	"context"
 	"crypto/sha256"
 	"fmt"
@@ -116,15 +117,14 @@ func genMS(t *rapid.T) MSScript {
 	return s
 }
 
-// overshootClass refines the size-bound signature: the listed finding (bytes
-// sizer, metrics) overshoots by a few bytes of unbudgeted length prefixes and
-// one metric without data points; anything larger is a different defect.
-func overshootClass(sizer string, over int) string {
-	switch {
-	case sizer == "bytes" && over > 64:
-		return "/over>64"
-	case sizer == "bytes" && over > 16:
-		return "/over>16"
+// overshootClass refines the size-bound signature by WHERE the oversized batch
+// sits: the listed finding (bytes sizer, metrics) concerns batches produced by
+// an extraction (unbudgeted length prefixes, a metric without data points) — in
+// hundreds of thousands of cases never the remainder that is left when
+// splitting stops, whose size is the request's memoised size.
+func overshootClass(when string) string {
+	if strings.Contains(when, "tail") {
+		return "/remainder"
 	}
 	return ""
 }
@@ -173,7 +173,7 @@ func runMSInner(cMS *vt.C, s *MSScript) (nontrivial bool, f *vt.Finding) {
 		}
 		if s.Max > 0 {
 			if sz := sizeOf(s, r); sz > s.Max && sig.UnitCount(v) > 1 {
-				name := "size-bound/" + s.Sizer + "/" + s.Signal + overshootClass(s.Sizer, sz-s.Max)
+				name := "size-bound/" + s.Sizer + "/" + s.Signal + overshootClass(when)
 				if s.Sizer == "bytes" {
 					over := sz - s.Max
 					b := "over>64"
@@ -185,7 +185,11 @@ func runMSInner(cMS *vt.C, s *MSScript) (nontrivial bool, f *vt.Finding) {
 					case over <= 64:
 						b = "over<=64"
 					}
-					cMS.Class("overshoot:" + s.Signal + ":" + b)
+					pos := "extracted"
+					if strings.Contains(when, "tail") {
+						pos = "tail"
+					}
+					cMS.Class("overshoot:" + s.Signal + ":" + pos + ":" + b)
 				}
 				if f := vt.Failf(name, "%s: emitted batch has size %d %s > max %d and holds %d units", when, sz, s.Sizer, s.Max, sig.UnitCount(v)); !cMS.Soft(f, s) {
 					return f
